@@ -80,8 +80,27 @@ package core
 //@   ensures @workdir ghost(shq)[old(metadata.curFilesPath)] > old(ghost(shq)[metadata.curFilesPath])
 //@   ensures @onereplacer ghost(nrepl)[0] == old(ghost(nrepl)[0]) + 1
 //@   ensures @singlepass result == fn("strings.Replacer.Replace", ghost(lastrepl)[0], old(self.config.jobTemplate))
+//@   effect lastscript 0 := result
 //@   loop 1 invariant !old(alloc(base(args))) && forall j :: 0 <= j && j < len(argv) ==> argv[j] == old(argv[j])
 //@   loop 2 invariant !old(alloc(base(args))) && forall j :: 0 <= j && j < len(argv) ==> argv[j] == old(argv[j])
+
+// sendJob hands the submit command exactly the script jobScript built (ghost events:
+// lastscript[0] is the last jobScript result, lastreader[0] the last string wrapped by
+// strings.NewReader, lastraw[m] the last text written to m's _jobscript file with Metadata.WriteRaw).
+//@ func core.Metadata.WriteRaw property C18
+//@   trusted
+//@   modifies mapof(self.contents), mapof(self.readCache), held(self.mutex)
+//@   effect lastraw self := (name == "jobscript" ? text : ghost(lastraw)[self])
+//@ func core.Metadata.WriteErrorString property C18
+//@   ensures ghost(lastraw) == old(ghost(lastraw)) && ghost(lastreader) == old(ghost(lastreader)) && ghost(lastscript) == old(ghost(lastscript))
+//@ func core.Metadata.WriteRawBytes property C18
+//@   ensures ghost(lastraw) == old(ghost(lastraw)) && ghost(lastreader) == old(ghost(lastreader)) && ghost(lastscript) == old(ghost(lastscript))
+//@ func core.Metadata.remove property C18
+//@   ensures ghost(lastraw) == old(ghost(lastraw)) && ghost(lastreader) == old(ghost(lastreader)) && ghost(lastscript) == old(ghost(lastscript))
+//@ func core.RemoteJobManager.sendJob property C18
+//@   requires self != nil && self.config != nil && metadata != nil
+//@   ensures @piped ghost(lastreader)[0] == ghost(lastscript)[0]
+//@   ensures @recorded ghost(lastraw)[metadata] == ghost(lastscript)[0]
 
 // ---------------------------------------------------------------- C12 semaphores
 //
@@ -660,7 +679,7 @@ package core
 //@   pure
 //@   opt deterministic on
 
-//@ func core.Node.makePrenodesForBinding property C04
+//@ func core.Node.makePrenodesForBinding property C04 C02
 //@   requires self != nil && self.top != nil
 //@   requires forall n core.Nodable :: fileRefs != nil && has(fileRefs, n) && fileRefs[n] != nil ==> alloc(fileRefs[n])
 //@   let R = fn(syntax.ResolvedBinding.FindRefs, bind, self.top.types).0
@@ -670,6 +689,15 @@ package core
 //@   loop 1 invariant forall n core.Nodable :: fileRefs != nil && has(fileRefs, n) && fileRefs[n] != nil ==> alloc(fileRefs[n])
 //@   loop 1 invariant forall j :: 0 <= j && j < iter && R[j] != nil && R[j].Exp != nil && fn(syntax.Type.IsFile, R[j].Type) != 0 ==> fileRefs != nil && has(fileRefs, self.top.allNodes[R[j].Exp.Id]) && has(fileRefs[self.top.allNodes[R[j].Exp.Id]], R[j].Exp.OutputId)
 //@   loop 2 invariant forall j :: 0 <= j && j < len(R) && R[j] != nil && R[j].Exp != nil && fn(syntax.Type.IsFile, R[j].Type) != 0 ==> fileRefs != nil && has(fileRefs, self.top.allNodes[R[j].Exp.Id]) && has(fileRefs[self.top.allNodes[R[j].Exp.Id]], R[j].Exp.OutputId)
+// Every call the binding refers to - through its typed references AND through the plain
+// references of its expression, which alone include the source of a split (the call producing
+// the collection a map call runs over) - is registered as a prerequisite.
+//@   let AR = fn(syntax.Exp.FindRefs, bind.Exp)
+//@   ensures @allrefs forall j :: 0 <= j && j < len(AR) && AR[j] != nil ==> result.0 != nil && has(result.0, self.top.allNodes[AR[j].Id])
+//@   ensures @typedrefs forall j :: 0 <= j && j < len(R) && R[j] != nil && R[j].Exp != nil ==> result.0 != nil && has(result.0, self.top.allNodes[R[j].Exp.Id])
+//@   loop 1 invariant refs != nil && forall j :: 0 <= j && j < iter && R[j] != nil && R[j].Exp != nil ==> has(refs, self.top.allNodes[R[j].Exp.Id])
+//@   loop 2 invariant refs != nil && 0 <= iter && iter <= len(AR) && forall j :: 0 <= j && j < iter && AR[j] != nil ==> has(refs, self.top.allNodes[AR[j].Id])
+//@   loop 2 invariant forall j :: 0 <= j && j < len(R) && R[j] != nil && R[j].Exp != nil ==> has(refs, self.top.allNodes[R[j].Exp.Id])
 
 // The full kill of a fork's files happens only when the fork is disabled or no consumer of
 // its file outputs is left waiting (filePostNodes empty); finished consumers are the only
@@ -861,7 +889,7 @@ package core
 // Node.setPrenode registers the prerequisite on this node itself (whatever prenodes it
 // already has), after pushing it down to the subnodes.  Ownership precondition, preserved:
 // no node's postnodes map is any node's prenodes map; both are allocated when not nil.
-//@ func core.Node.setPrenode property C02
+//@ func core.Node.setPrenode property C02 C06
 //@   requires !isnil(prenode)
 //@   requires @disjoint forall x *core.Node, y *core.Node :: x.postnodes == nil || x.postnodes != y.prenodes
 //@   requires @wf forall x *core.Node :: (x.postnodes == nil || alloc(x.postnodes)) && (x.prenodes == nil || alloc(x.prenodes))
@@ -870,6 +898,15 @@ package core
 //@   ensures @wf forall x *core.Node :: (x.postnodes == nil || alloc(x.postnodes)) && (x.prenodes == nil || alloc(x.prenodes))
 //@   loop 1 invariant forall x *core.Node, y *core.Node :: x.postnodes == nil || x.postnodes != y.prenodes
 //@   loop 1 invariant forall x *core.Node :: (x.postnodes == nil || alloc(x.postnodes)) && (x.prenodes == nil || alloc(x.prenodes))
+//@   requires @subdisjoint forall x *core.Node, y *core.Node :: x.subnodes == nil || (x.subnodes != y.prenodes && x.subnodes != y.postnodes && alloc(x.subnodes))
+//@   ensures @subdisjoint forall x *core.Node, y *core.Node :: x.subnodes == nil || (x.subnodes != y.prenodes && x.subnodes != y.postnodes && alloc(x.subnodes))
+//@   ensures @subframe forall x *core.Node, k string :: x.subnodes == old(x.subnodes) && has(x.subnodes, k) == old(has(x.subnodes, k)) && x.subnodes[k] == old(x.subnodes[k])
+//@   loop 1 invariant forall x *core.Node, y *core.Node :: x.subnodes == nil || (x.subnodes != y.prenodes && x.subnodes != y.postnodes && alloc(x.subnodes))
+//@   loop 1 invariant forall x *core.Node, k string :: x.subnodes == old(x.subnodes) && has(x.subnodes, k) == old(has(x.subnodes, k)) && x.subnodes[k] == old(x.subnodes[k])
+//@   ensures @monotone forall x *core.Node, k string :: old(x.prenodes != nil && has(x.prenodes, k)) ==> x.prenodes != nil && has(x.prenodes, k)
+//@   ensures @pusheddown forall k string :: has(self.subnodes, k) ==> fn(core.Nodable.getNode, self.subnodes[k]).prenodes != nil && has(fn(core.Nodable.getNode, self.subnodes[k]).prenodes, fn(core.Nodable.GetFQName, prenode))
+//@   loop 1 invariant forall x *core.Node, k string :: old(x.prenodes != nil && has(x.prenodes, k)) ==> x.prenodes != nil && has(x.prenodes, k)
+//@   loop 1 invariant forall k string :: visited(k) ==> fn(core.Nodable.getNode, self.subnodes[k]).prenodes != nil && has(fn(core.Nodable.getNode, self.subnodes[k]).prenodes, fn(core.Nodable.GetFQName, prenode))
 
 // ---------------------------------------------------------------- C05 a reset node re-reads its state
 // Ghost event: nodeloads[n] counts Node.loadMetadata calls on n.  A successful reset (full
@@ -997,3 +1034,22 @@ package core
 //@   requires !held(self.mutex)
 //@   ensures @failedreset mdState(old(dom(self.contents))) == "failed" ==> ghost(resets)[self] == old(ghost(resets)[self]) + 1
 //@   ensures @onlyfailed mdState(old(dom(self.contents))) != "failed" ==> ghost(resets) == old(ghost(resets))
+
+// ---------------------------------------------------------------- C01 / C17 projection through arrays at run time
+// resolvePath: null projects to null; projecting a field through an array yields an array with
+// one entry per element - in particular an EMPTY array projects to an empty array, never to
+// null; each entry is the projection of that element at the type with one array dimension
+// fewer (the invariant names the entry just appended: entries appended earlier sit in an
+// array the recursive call does not own, and its inferred frame is too coarse to carry them).
+//@ func syntax.TypeLookup.GetArray property C01 C17
+//@   trusted
+//@   pure
+//@   opt deterministic on
+//@ func core.resolvePath property C01 C17
+//@   opt deterministic on
+//@   let isnull = fn("bytes.Equal", b, core.nullBytes)
+//@   ensures @null isnull ==> isnil(result.0) && isnil(result.1)
+//@   ensures @array !isnull && p != "" && istype(t, ptr_syntax.ArrayType) && isnil(result.1) ==> istype(result.0, core.marshallerArray) && as(result.0, core.marshallerArray) != nil
+//@   loop 1 invariant 0 <= iter && iter <= len(arr) && len(result) == iter && result != nil
+//@   loop 1 invariant forall j :: 0 <= j && j < len(arr) ==> arr[j] == atloop(arr[j])
+//@   loop 1 invariant iter > 0 ==> result[iter-1] == fn(core.resolvePath, arr[iter-1], p, fn(syntax.TypeLookup.GetArray, lookup, t, -1), dest, lookup).0
